@@ -329,7 +329,17 @@ def c203_departures(ctx):
         if not links:
             continue
         n += 1
-        nh = P.call_points_closed(ctx.prog, f, r"sync42::wait_list::WaitList::notify_head$", depth=2)
+        NH = r"sync42::wait_list::WaitList::notify_head$"
+        nh = P.call_points(f, NH)
+        # a helper of the same crate all of whose paths notify counts (`return self.abandon_write(guard, err)`); calls into other
+        # crates do not -- ConcurrentLogBuilder::append notifies the head of the *log's* queue, not of this list
+        for b_, t_ in f.calls():
+            for k_ in ctx.prog.targets(t_):
+                g_ = ctx.prog.fns.get(k_)
+                if g_ is not None and g_.crate == f.crate and g_ is not f:
+                    gn = P.call_points(g_, NH)
+                    if gn and P.reach(g_, P.ENTRY, P.return_points(g_), avoid=set(gn)) is None:
+                        nh.append(P.term_pt(f, b_.idx))
         q = P.reach(f, [a for l_ in links for a in P.after(f, l_)], P.return_points(f), avoid=set(nh))
         ctx.check(R, f, "every-departure-notifies", q is None and bool(nh),
                   "every exit of %s after WaitList::link passes notify_head" % f.skey.rsplit("::", 1)[-1],
